@@ -636,4 +636,101 @@ theorem rel_refl_of (R : Rid → Prop) (h h' : Nat) (st : St)
     (n1 : ∀ r, ¬ R r → st.reg r ≠ some h) (n2 : ∀ r, R r → st.reg r ≠ some h') : Rel R h h' st st :=
   ⟨fun _ _ => rfl, fun _ _ => ⟨rfl, rfl⟩, n1, fun r hr => ⟨n2 r hr, n2 r hr⟩⟩
 
+
+/-! ### blocking semantics (finding F20) -/
+
+@[simp] theorem stuck_drain (sb : StB) (h : Nat) : stuck true sb h = false := by simp [stuck]
+
+/-- with the drain (the code since /repo 3a1c0bc) every send completes: one blocking step = one `step` -/
+theorem stepB_drain (sb : StB) (e : Ev) :
+    stepB true sb (.ev e) = .ok { sb with st := (step sb.st e).1 } (step sb.st e).2 := by
+  cases e with
+  | arrive s =>
+    simp only [stepB]
+    cases sb.st.reg s.rid <;> simp
+  | register h r =>
+    simp only [stepB]
+    cases sb.st.buf r <;> simp
+  | cancel h => rfl
+  | watchdog => rfl
+  | other => rfl
+
+theorem runB_drain (es : List EvB) : ∀ sb : StB,
+    ∃ sb', runB true sb es = .ok sb' (run sb.st (toEvs es)).2 ∧ sb'.st = (run sb.st (toEvs es)).1 := by
+  induction es with
+  | nil => intro sb; exact ⟨sb, rfl, rfl⟩
+  | cons e es ih =>
+    intro sb
+    cases e with
+    | finish h =>
+      obtain ⟨sb', h1, h2⟩ := ih { sb with fin := fun x => if x = h then true else sb.fin x }
+      refine ⟨sb', ?_, ?_⟩
+      · simp only [runB, stepB, toEvs, h1, List.nil_append]
+      · simpa [toEvs] using h2
+    | ev e0 =>
+      obtain ⟨sb', h1, h2⟩ := ih { sb with st := (step sb.st e0).1 }
+      refine ⟨sb', ?_, ?_⟩
+      · simp only [runB, stepB_drain, toEvs, h1, run_cons]
+      · simpa [toEvs, run_cons] using h2
+
+/-- without `finish` marks nothing blocks either way: the stages are all receiving -/
+theorem stuck_of_no_fin (drain : Bool) (sb : StB) (hf : ∀ h, sb.fin h = false) (h : Nat) :
+    stuck drain sb h = false := by simp [stuck, hf]
+
+/-- whatever the variant: a run that is not blocked performed exactly the sends of `run` -/
+theorem runB_ok_sends (drain : Bool) (es : List EvB) : ∀ (sb sb' : StB) (o : List (Nat × Share)),
+    runB drain sb es = .ok sb' o → o = (run sb.st (toEvs es)).2 ∧ sb'.st = (run sb.st (toEvs es)).1 := by
+  induction es with
+  | nil => intro sb sb' o h; simp only [runB, OutB.ok.injEq] at h; obtain ⟨rfl, rfl⟩ := h; exact ⟨rfl, rfl⟩
+  | cons e es ih =>
+    intro sb sb' o h
+    simp only [runB] at h
+    cases hs : stepB drain sb e with
+    | blocked h0 s0 => simp [hs] at h
+    | ok sb1 o1 =>
+      simp only [hs] at h
+      cases hr : runB drain sb1 es with
+      | blocked h0 s0 => simp [hr] at h
+      | ok sb2 o2 =>
+        simp only [hr, OutB.ok.injEq] at h
+        obtain ⟨rfl, rfl⟩ := h
+        obtain ⟨i1, i2⟩ := ih sb1 sb2 o2 hr
+        -- one step: either a `finish` mark (state of the loop unchanged) or exactly `step`
+        have key : (∃ h0, e = .finish h0 ∧ sb1.st = sb.st ∧ o1 = []) ∨
+            (∃ e0, e = .ev e0 ∧ sb1.st = (step sb.st e0).1 ∧ o1 = (step sb.st e0).2) := by
+          cases e with
+          | finish h0 =>
+            left
+            simp only [stepB, OutB.ok.injEq] at hs
+            obtain ⟨rfl, rfl⟩ := hs
+            exact ⟨h0, rfl, rfl, rfl⟩
+          | ev e0 =>
+            right
+            refine ⟨e0, rfl, ?_⟩
+            cases e0 with
+            | arrive s =>
+              simp only [stepB] at hs
+              split at hs
+              · split at hs
+                · cases hs
+                · simp only [OutB.ok.injEq] at hs; obtain ⟨rfl, rfl⟩ := hs; exact ⟨rfl, rfl⟩
+              · simp only [OutB.ok.injEq] at hs; obtain ⟨rfl, rfl⟩ := hs; exact ⟨rfl, rfl⟩
+            | register h1 r =>
+              simp only [stepB] at hs
+              split at hs
+              · split at hs
+                · cases hs
+                · simp only [OutB.ok.injEq] at hs; obtain ⟨rfl, rfl⟩ := hs; exact ⟨rfl, rfl⟩
+              · simp only [OutB.ok.injEq] at hs; obtain ⟨rfl, rfl⟩ := hs; exact ⟨rfl, rfl⟩
+            | cancel h1 => simp only [stepB, OutB.ok.injEq] at hs; obtain ⟨rfl, rfl⟩ := hs; exact ⟨rfl, rfl⟩
+            | watchdog => simp only [stepB, OutB.ok.injEq] at hs; obtain ⟨rfl, rfl⟩ := hs; exact ⟨rfl, rfl⟩
+            | other => simp only [stepB, OutB.ok.injEq] at hs; obtain ⟨rfl, rfl⟩ := hs; exact ⟨rfl, rfl⟩
+        rcases key with ⟨h0, rfl, k1, rfl⟩ | ⟨e0, rfl, k1, rfl⟩
+        · rw [k1] at i1 i2
+          exact ⟨by simpa [toEvs] using i1, by simpa [toEvs] using i2⟩
+        · rw [k1] at i1 i2
+          refine ⟨?_, ?_⟩
+          · simp only [toEvs, run_cons]; rw [i1]
+          · simp only [toEvs, run_cons]; exact i2
+
 end Dos.Collector
